@@ -180,7 +180,8 @@ def evaluate(node):
             os.chdir("/")
             bad("public-call-raises", f"building the tree raised {type(e).__name__}: {e}", [], exc=type(e).__name__)
             return {"cls": "broken", "viol": viol, "n": 1}
-        queries = [d for d, _ in lay.dirs] + [os.path.join(d, "nope") for d, k in lay.dirs[:3]]
+        queries = [d for d, _ in lay.dirs] + [os.path.join(d, "nope") for d, k in lay.dirs] + \
+                  [os.path.join(d, "nope", "deeper") for d, k in lay.dirs if k == "job"]
         before = canon.snapshot(root)
         for rel in queries:
             full = os.path.join(root, rel) if rel else root
